@@ -50,6 +50,10 @@ const (
 	acquired = iota
 	blocked
 	released
+	// reacquiring means that block's deferred function is waiting for a spot in
+	// ch. The holder does not own a token yet, so a concurrent release must not
+	// take one out of ch.
+	reacquiring
 )
 
 // release gives up the holder's spot in ch.
@@ -78,9 +82,14 @@ func (h *holder) block(f func()) {
 			// If we are still blocked, re-acquire. Otherwise, we just got got released
 			// (and that release used our token we gave up), and should no longer try to
 			// re-acquire.
-			if atomic.CompareAndSwapInt64(&h.status, blocked, acquired) {
+			if atomic.CompareAndSwapInt64(&h.status, blocked, reacquiring) {
 				verifAt("block.send", h)
 				h.l.ch <- struct{}{}
+				// If we got released while waiting for the spot, release() did not
+				// touch ch (we were not acquired), so give the spot back ourselves.
+				if !atomic.CompareAndSwapInt64(&h.status, reacquiring, acquired) {
+					<-h.l.ch
+				}
 			}
 		}()
 	}
